@@ -185,10 +185,11 @@ class C18(FsProp):
                                     "clauses": ["C18.readonly"]})
                 for sp in ("create", "new", "implicit"):
                     for form in ("file", "dir", "cwd"):
-                        for pre_ex in (False, True):
+                        for pre_ex in (False, True, "hardlink", "symlink"):
                             out.append({"cmd": "create", "spelling": sp, "outform": form, "preexisting": pre_ex,
                                         "version": v, "P": B, "tree": t, "progress": (len(out) % 3),
-                                        "align": v == 1 and len(out) % 2 == 0, "clauses": ["C18.create"]})
+                                        "align": v == 1 and len(out) % 2 == 0, "clauses": ["C18.create"],
+                                        "dot_torrent": form != "file" and pre_ex in (True, "hardlink")})
                 for tex in (False, True):
                     for cwdm in ("metadir", "elsewhere"):
                         for decoy in (False, True):
@@ -211,7 +212,8 @@ class C18(FsProp):
                 c["cwd_mode"] = "elsewhere" if k % 3 == 0 else "metadir"
         if tier != "thorough":
             out = [c for k, c in enumerate(out) if c["cmd"] in ("rename", "info") or k % 2 == 0
-                   or (c.get("pre") == ["-v"] and c.get("damage"))]      # verbose runs on damaged content are always kept
+                   or (c.get("pre") == ["-v"] and c.get("damage"))      # verbose runs on damaged content are always kept
+                   or (c.get("preexisting") in ("hardlink", "symlink") and (k // 2) % 2 == 0)]
         return out
 
     def corruptions(self, recs):
